@@ -48,12 +48,22 @@ Proof. exact rule_both_ends. Qed.
 Theorem C14_rule_end_in_returning_method : forall ps, existsb is_end_param ps = true -> exists d, gen true true ps = Diag d.
 Proof. exact rule_end_in_returning_method. Qed.
 Theorem C14_rule_without_interact : forall ret ps q x, In q ps -> In x (leaves (fst q)) -> reserved x = true ->
-  gen false ret ps = Diag DNoInteract.
+  exists d, gen false ret ps = Diag d.
 Proof. exact rule_without_interact. Qed.
-(* a pattern that flattens to exactly `inter_send` / `inter_recv` next to an inter variable is refused ... *)
-Theorem C14_rule_reserved_from_pattern : forall ret ps q, In q ps -> (forall x, fst q <> PId x) -> reserved (flat_name (fst q)) = true ->
-  existsb is_ivar ps = true -> exists d, gen true ret ps = Diag d.
+(* naming checks, run before the interact rules, with or without `interact`:
+   two parameters that flatten to the same identifier are refused (`inter_recv` twice; `(inter, count)` next to `inter_count`) *)
+Theorem C14_rule_duplicate_flat_names : forall interact ret ps, ~ NoDup (map fname ps) -> exists d, gen interact ret ps = Diag d.
+Proof. exact rule_duplicate_flat_names. Qed.
+(* a composite pattern that flattens to a name the model binds itself (inter_send, inter_recv, inter_actor) is refused ... *)
+Theorem C14_rule_reserved_from_pattern : forall interact ret ps q, In q ps -> composite (fst q) = true -> model_reserved (fname q) = true ->
+  exists d, gen interact ret ps = Diag d.
 Proof. exact rule_reserved_from_pattern. Qed.
+(* `inter_actor` anywhere in a parameter pattern is refused *)
+Theorem C14_rule_inter_actor : forall interact ret ps q, In q ps -> In "inter_actor" (leaves (fst q)) -> gen interact ret ps = Diag DInterActor.
+Proof. exact rule_inter_actor. Qed.
+(* accepted methods carry pairwise distinct field names: a getter `let` can no longer shadow a handle parameter *)
+Theorem C14_field_names_distinct : forall interact ret ps o, gen interact ret ps = Ok o -> NoDup (map fst (lo_fields o)).
+Proof. exact field_names_distinct. Qed.
 (* ... FULL STRENGTH "an inter variable anywhere inside a pattern is refused" is false of the faithful model (and of the
    code: `(inter_send, b): (..)` is an ordinary parameter `inter_send_b`); the documentation does not demand it *)
 Theorem C14_rule_inside_pattern_refuted :
@@ -116,7 +126,10 @@ Print Assumptions C14_getters_read.
 Print Assumptions C14_rule_both_ends.
 Print Assumptions C14_rule_end_in_returning_method.
 Print Assumptions C14_rule_without_interact.
+Print Assumptions C14_rule_duplicate_flat_names.
 Print Assumptions C14_rule_reserved_from_pattern.
+Print Assumptions C14_rule_inter_actor.
+Print Assumptions C14_field_names_distinct.
 Print Assumptions C14_rule_inside_pattern_refuted.
 Print Assumptions C14_rule_mixed_identifier.
 Print Assumptions C14_end_type_coherent.
